@@ -46,6 +46,11 @@ def fetch_drop_sites(db, fn, depth=2):
 
 
 def run(ctx):
+    _run(ctx)
+    link_rule(ctx)
+
+
+def _run(ctx):
     db = ctx.db
     ctx.explanation = (
         "Decides the structural clause: who may issue a fetch and under which dominating checks (vacant table entry, "
@@ -246,3 +251,26 @@ def run(ctx):
                "Session::fetching asserts the repository is not already being fetched on this session: relies on the "
                "Service.fetching/Session.fetching consistency invariant across events (not decided); its `disconnected` panic is "
                "excluded by dom:fetch:connected", rules.where(sf), fn=sf)
+
+
+def link_rule(ctx):
+    """`Service::disconnected` ignores an event whose link differs from the session's (`session.link != link`): that is
+    its only protection against the late disconnect of a connection that was replaced.  It works only if the session's link
+    is the link of the *live* connection: when a peer connects inbound onto an existing session, the session is switched
+    to that link, on every path."""
+    db = ctx.db
+    fn = db.one(r"^radicle_node::service::Service::connected$")
+    if fn is None:
+        ctx.violated("anchor:connected", "Service::connected not found (anchor missing)")
+        return
+    tc = [bb for bb, t, c in db.calls(fn) if (c.get("n") or "").endswith("session::Session::to_connected")]
+    w = [bb for bb, j, s in rules.field_writes(fn, "link", r"session::Session")]
+    ctx.floor("connected:to_connected", len(tc), 1, "re-use of an existing session in Service::connected")
+    ok, deny, bad = rules.excl_check(db, fn, tc, rules.is_bool(r"(Link|Direction)::is_outbound$", False), reeval_blocks=w)
+    if not deny:
+        ctx.ob("pair:connected:link", "inconclusive", "the inbound/outbound distinction in Service::connected was not recognised", rules.where(fn), fn=fn)
+        return
+    ctx.check("pair:connected:link", bool(ok and w),
+              "an existing session that is re-used for an inbound connection is switched to the new connection's link on every path; otherwise the "
+              "late disconnect event of the replaced connection (same link as the stale session) tears the live session and its in-flight fetches down",
+              rules.where(fn, w[0] if w else None), detail={"path": list(bad.values())[:1]}, fn=fn)
